@@ -91,7 +91,16 @@ func mentions(t types.Type, set map[*types.TypeName]bool, seen map[types.Type]bo
 		if set[x.Obj()] {
 			return x.Obj()
 		}
-		// do not look inside other named types: their own fields are judged where they are declared
+		// an instantiated generic type (a once-wrapper with a value, a pool, a stack) holds what its type
+		// arguments say
+		if ta := x.TypeArgs(); ta != nil {
+			for i := 0; i < ta.Len(); i++ {
+				if tn := mentions(ta.At(i), set, seen); tn != nil {
+					return tn
+				}
+			}
+		}
+		// otherwise do not look inside other named types: their own fields are judged where they are declared
 		return nil
 	case *types.Pointer:
 		return mentions(x.Elem(), set, seen)
